@@ -227,7 +227,28 @@ static void c18_case(vf_rd *r, vf_report *rep) {
         snprintf(c->a.desc, sizeof(c->a.desc), "n=%zu strict16 start=%u stride=%u",
                  want, c->p1 % 1000, 1 + (c->p3 & 7));
     }
-    if (d->kind == 3 && big) {
+    if (d->kind == 3 && big && (c->p2 & 1)) {
+        /* above the exact-analysis limit with contents that mislead a sampled
+         * estimate: every k-th element (k = 10, or 2..21) is one common value,
+         * all others are distinct wide values; the allocations of the
+         * encoder's own confirmation of a sampled choice are fault sites */
+        const size_t want = 10001 + c->p1 % 100;
+        const unsigned k = (c->p2 & 2) ? 2 + (c->p2 >> 2) % 20 : 10;
+        const unsigned phase = (c->p3 & 1) ? (c->p3 >> 1) % k : 0;
+        uint64_t s = vf_mix(c->p1, ((uint64_t)c->p2 << 8) | c->p3) | 1;
+        const uint64_t common = c->a.v[0];
+        extend_array(&c->a, want, 0);
+        for (size_t i = 0; i < want; i++) {
+            c->a.v[i] = i % k == phase
+                            ? common
+                            : ((vf_xs(&s) << 20) | (uint64_t)i | (1ULL << 63));
+        }
+        snprintf(c->a.desc, sizeof(c->a.desc),
+                 "n=%zu sampler-fooling k=%u phase=%u common=%llu rest distinct "
+                 "64-bit",
+                 want, k, phase, (unsigned long long)common);
+        vf_class("arr.sampler-fooling>10000");
+    } else if (d->kind == 3 && big) {
         extend_array(&c->a, 10001 + c->p1 % 100, (c->p3 & 1) ? 0 : (c->p3 >> 1));
     }
     vf_alloc_fill(0xA5);
